@@ -192,8 +192,15 @@ class Explorer:
                 n, label, costs, kh = ch.points[i]
                 self.points_total += 1
                 self.transitions += 1  # the default alternative, taken by this execution
-                if self.shard is not None and not prefix and i % self.shard[1] != self.shard[0]:
-                    continue
+                if self.shard is not None:
+                    lvl = self.shard[2] if len(self.shard) > 2 else 1
+                    ndev = sum(1 for c in prefix if c)
+                    if ndev == lvl - 1:
+                        # the tree is partitioned among the shards at this depth (every shard repeats the levels above)
+                        first = next((j for j, c in enumerate(prefix) if c), 0)
+                        hv = (((i * 0x9E3779B1) ^ (first * 0x85EBCA6B)) & 0xFFFFFFFF) >> 11
+                        if hv % self.shard[1] != self.shard[0]:
+                            continue
                 for alt in range(1, n):
                     if self.bound is not None and accs[i] + costs[alt] > self.bound:
                         continue
